@@ -11,6 +11,10 @@ part "hpd"   : nifty.re.conjugate_gradient._cg (eager) and ._static_cg (inside j
                Oracle: dense residual / energy of the returned point and of the previous
                iterate, the stopping rule evaluated on them, exact CG iterates
                (Krylov-subspace minimisers), then eager-vs-compiled agreement.
+part "long"  : sizes 24-40, spectra on which CG needs 20-50 iterations, so that the exact residual
+               recomputation (every 20th iteration) happens once or twice; both solvers, three stopping
+               configurations, flat and pytree layout.  Oracle: no failure on HPD, criterion met on true
+               quantities, both solutions within 2*resnorm/lambda_min of each other.
 part "nonpd" : indefinite / negative definite / singular matrices, _raise_nonposdef in {T,F},
                one solver per case.  Oracle: textbook CG on the dense matrix tells at which
                iteration a non-positive curvature direction first appears; failure must be
@@ -69,7 +73,14 @@ def cases(tier, seed):
                     for solver in ("eager", "static"):
                         out.append(dict(part="nonpd", n=n, layout="tree", cplx=cplx, x0=x0, raise_nonposdef=rz,
                                         solver=solver, seed=seed))
-    order = {"hpd": 0, "nonpd": 1}
+    # long runs: the exact residual recomputation every N_RESET = 20 iterations happens once or twice
+    for n in ([24, 32] if quick else [24, 32, 40]):
+        for layout in ("flat", "tree"):
+            for cplx in ((False, True) if (not quick or n == 24) else (False,)):
+                for x0 in (False, True):
+                    for cfg in ("default", "resnorm", "absdelta"):
+                        out.append(dict(part="long", n=n, layout=layout, cplx=cplx, x0=x0, cfg=cfg, seed=seed))
+    order = {"hpd": 0, "nonpd": 1, "long": 2}
     out.sort(key=lambda c: (c["n"], order[c["part"]], c["cplx"], c["x0"], c.get("maxmode", "none") != "none"))
     return out
 
@@ -445,5 +456,99 @@ def run_nonpd(c):
     return ok(nontrivial=met > 0, outcome="nonpd:%s:raise=%s" % (solver, rz), stats=st, detail=dict(st))
 
 
+# ------------------------------------------------------------------ part long
+LONGCFG = {"default": dict(), "resnorm": dict(resnorm=RESNORM, miniter=0), "absdelta": dict(absdelta=1e-9)}
+
+
+def run_long(c):
+    import jax.numpy as jnp
+    from nifty.re.conjugate_gradient import N_RESET
+    from vf.ref import c14_sys as S
+    from vf.ref import c15_ref as R
+    n, cplx, seed, layout = c["n"], c["cplx"], c["seed"], c["layout"]
+    _quiet()
+    wrap, flat = _layout(layout, n)
+    cfg = dict(LONGCFG[c["cfg"]])
+    fn = _static_fn(n, layout, cplx, "absdelta" in cfg, "resnorm" in cfg, "miniter" not in cfg, True, c["x0"], True)
+    found = {}
+    st = dict(runs=0, one_reset=0, two_resets=0, no_reset=0, compared=0)
+
+    def V(key, what):
+        found.setdefault(key, what)
+
+    U = S.mixing(n, cplx, seed)
+    for spec in R.LONG_SPECTRA[n]:
+        lam = R.long_spectrum(spec, n)
+        A = S.hpd(lam, U)
+        Aj = jnp.asarray(A)
+
+        def mat(v, Aj=Aj):
+            return wrap(Aj @ flat(v))
+        for rhs in ("ones", "gen"):
+            j = S.vector(rhs, n, cplx, U, seed, tag=1)
+            x0 = 0.7 * S.vector("gen", n, cplx, U, seed, tag=2) if c["x0"] else np.zeros_like(j)
+            jv, x0v = wrap(j), wrap(x0)
+            x0e = x0v if c["x0"] else None
+            sg, sE, _ = R.slacks(A, lam, j, x0)
+            resn = R.effective_resnorm(dict(cfg, tol=1e-5, atol=0.), j)
+            tag = "n=%d,%s,%s,rhs=%s,%s" % (n, spec, "complex" if cplx else "real", rhs, _cfgstr(cfg, None))
+            st["runs"] += 1
+            res = {}
+            for solver in ("eager", "static"):
+                r = _eager(mat, flat, jv, x0e, cfg, None) if solver == "eager" else _static(fn, Aj, jv, x0v, cfg, None)
+                res[solver] = r
+                where = "%s %s" % (solver, tag)
+                if "raised" in r:
+                    V("long|%s|raises-on-positive-definite|%s" % (solver, r["raised"].split(": ")[-1]), "%s raised %s" % (where, r["raised"]))
+                    continue
+                x = r["x"]
+                if not np.all(np.isfinite(x)):
+                    V("long|%s|non-finite-solution" % solver, where)
+                    continue
+                r["rn"], r["E"] = np.linalg.norm(A @ x - j), S.energy(A, j, x)
+                if r["success"] != (r["info"] == 0):
+                    V("long|%s|success-flag-differs-from-info" % solver, "%s info=%d success=%s" % (where, r["info"], r["success"]))
+                if r["info"] != 0:
+                    V("long|%s|no-convergence-on-positive-definite" % solver, "%s info=%d nit=%d |Ax-j|=%.2e" % (where, r["info"], r["nit"], r["rn"]))
+                    continue
+                # the requested criterion on true quantities (the previous iterate comes from a re-run stopped one step earlier)
+                ok_res = resn is not None and r["rn"] < resn + sg
+                ok_abs = False
+                if "absdelta" in cfg and r["nit"] >= 1:
+                    p = _eager(mat, flat, jv, x0e, dict(resnorm=0., miniter=r["nit"]), r["nit"] - 1)
+                    if "raised" in p or p["nit"] != r["nit"] - 1:
+                        V("long|eager|trajectory-not-reproducible", "%s: re-run to iteration %d gives %s" % (where, r["nit"] - 1, str(p)[:120]))
+                    else:
+                        dE = S.energy(A, j, p["x"]) - r["E"]
+                        ok_abs = dE < cfg["absdelta"] * (1 + 1e-3) + 2 * sE
+                        r["dE"] = dE
+                if not (ok_res or ok_abs or r["rn"] <= sg):
+                    V("long|%s|success-without-criterion" % solver,
+                      "%s reports info=0 at nit=%d but |Ax-j|=%.3e (resnorm %s), last energy decrease %s (absdelta %s)"
+                      % (where, r["nit"], r["rn"], resn, r.get("dE"), cfg.get("absdelta")))
+            e, s_ = res["eager"], res["static"]
+            if "E" not in e or "E" not in s_ or e["info"] != 0 or s_["info"] != 0:
+                continue
+            k = min(e["nit"], s_["nit"]) // N_RESET
+            st["no_reset" if k == 0 else "one_reset" if k == 1 else "two_resets"] += 1
+            st["compared"] += 1
+            if resn is not None:
+                # both residuals are below resn, hence both points within resn/lambda_min of the solution
+                d = np.linalg.norm(e["x"] - s_["x"])
+                if d > 2 * (resn + sg) / lam.min():
+                    V("long|disagree|solution", "%s: |x_eager - x_static| = %.3e > 2 resnorm / lambda_min = %.3e (nit %d / %d)"
+                      % (tag, d, 2 * resn / lam.min(), e["nit"], s_["nit"]))
+            elif abs(e["E"] - s_["E"]) > 1e3 * cfg["absdelta"]:
+                V("long|disagree|solution", "%s: E(x_eager) - E(x_static) = %.3e (nit %d / %d)" % (tag, e["E"] - s_["E"], e["nit"], s_["nit"]))
+            if abs(e["nit"] - s_["nit"]) > 2:
+                V("long|disagree|iterations", "%s: eager stops after %d, static after %d iterations" % (tag, e["nit"], s_["nit"]))
+    if found:
+        keys = sorted(found)
+        return bad("%s%s" % (found[keys[0]], "" if len(keys) == 1 else "  [+%d other kinds, see detail]" % (len(keys) - 1)),
+                   finding_key=" + ".join(keys), detail=found, stats=st)
+    return ok(nontrivial=st["one_reset"] + st["two_resets"] > 0, outcome="long:%s:resets=%s" % (
+        c["cfg"], "2" if st["two_resets"] else "1" if st["one_reset"] else "0"), stats=st, detail=dict(st))
+
+
 def run(case):
-    return {"hpd": run_hpd, "nonpd": run_nonpd}[case["part"]](case)
+    return {"hpd": run_hpd, "nonpd": run_nonpd, "long": run_long}[case["part"]](case)
